@@ -198,7 +198,7 @@ impl Pack for ContentPack {
             crate::verif::point("content_check_info_fill", 0, 0);
             let _ = self.check_info.set(self.reader.parse_block_in::<CheckInfo>(
                 self.pack_header.check_info_pos,
-                self.pack_header.check_info_size(),
+                self.pack_header.check_info_size()?,
             )?);
         }
         let check_info = self.check_info.get().unwrap();
